@@ -25,7 +25,7 @@ func init() {
 	engines["C06"] = c06Engine{}
 	evidenceInfo["C06"] = evInfo{
 		rule: "one evaluation = one project observed under R=3..5 environments (rep 0 canonical; others: map order permuted at all / a random subset of the 21 instrumented map-range sites, reversed order, " +
-			"0-2 unrelated prior builds in the process, one repetition in a fresh OS process, pool policy, ambient seed). Projects: generator (valid), generator + 2..4 independent defect blocks of 25 kinds, " +
+			"0-2 unrelated prior builds in the process, one repetition in a fresh OS process, pool policy, ambient seed). Projects: generator (valid), generator + 2..4 independent defect blocks of 27 kinds, " +
 			"corpus files accepted and rejected, valid projects with 1-3 stored-byte faults (flip/torn/zeroed sector/misdirected sector) applied before the build. " +
 			"non-trivial = at least one repetition permuted a map site that saw >= 2 keys, or ran in a fresh process; distinct = distinct (project hash, set of permuted sites with >= 2 keys, fresh?) triples",
 		components: stdComponents,
